@@ -3,135 +3,71 @@
    [CHECK (v >= 0)], optional UNIQUE index on v, optional index on s).  [run g fx evs] is the state after
    the history evs: ANY list of events (BEGIN / statement / COMMIT / ROLLBACK / autocommit batch /
    CREATE [UNIQUE] INDEX) issued by ANY number of sessions in ANY interleaving, with MVCC validation at
-   commit.  [cur_code] = the code as it is; [fixed_code] = with the three proposed repairs
-   (fixes/C12-*.diff).  This file contains only the property theorems, each closed by `exact`. *)
+   commit.  [fixed_code] is the code as it is (with the repairs c876bb2, 12bf3b7, a77403f that this
+   check led to); the correspondence run (Tie.C12) ties exactly this model to /repo.  What the code
+   before the repairs violated is kept, machine-checked, in coq/SQLCons/Refuted.v.
+   This file contains only the property theorems, each closed by `exact`. *)
 From V Require Import SQLCons.Model SQLCons.Spec SQLCons.Basics SQLCons.Steps SQLCons.Frame SQLCons.RowInv SQLCons.Unique
      SQLCons.Refuted SQLCons.Insert SQLCons.Theorems.
 From Coq Require Import ZArith.
 Open Scope N_scope.
 
-(* Primary keys: after every history (code as it is or repaired), no two live rows share a key. *)
+(* Primary keys: after every history, no two live rows share a key. *)
 Theorem pk_unique :
-  forall (g : cfg) (fx : fixes) (evs : list event), NoDup (map fst (live_rows (s_c (run g fx evs)))).
-Proof. exact pk_unique_all. Qed.
+  forall (g : cfg) (evs : list event), NoDup (map fst (live_rows (s_c (run g fixed_code evs)))).
+Proof. exact pk_unique_code. Qed.
 Print Assumptions pk_unique.
 
-(* Type and length: after every history, every live row holds NULL or an int64 in v, and NULL or a
-   string of at most the declared length in s (code as it is or repaired). *)
-Theorem type_and_length_hold :
-  forall (g : cfg) (fx : fixes) (evs : list event) (k : Z) (r : row),
-    In (k, r) (live_rows (s_c (run g fx evs))) ->
-    (r_v r = VNull \/ exists z, r_v r = VInt z /\ in_i64 z = true) /\
-    (r_s r = VNull \/ exists s, r_s r = VStr s /\ len s <= k_maxlen g).
-Proof. exact type_and_length_all. Qed.
-Print Assumptions type_and_length_hold.
+(* UNIQUE index: after every history and interleaving, no two live rows hold the same value in v
+   (NULL included, as the index treats it). *)
+Theorem unique_index_no_duplicates :
+  forall (g : cfg) (evs : list event), unique_ok (s_c (run g fixed_code evs)).
+Proof. exact unique_fixed_code. Qed.
+Print Assumptions unique_index_no_duplicates.
 
-(* NOT NULL, repaired code: after every history no live row holds NULL in the NOT NULL column. *)
-Theorem not_null_holds_fixed :
+(* NOT NULL: after every history no live row holds NULL in the NOT NULL column. *)
+Theorem not_null_holds :
   forall (g : cfg) (evs : list event) (k : Z) (r : row),
     k_notnull g = true -> In (k, r) (live_rows (s_c (run g fixed_code evs))) -> r_v r <> VNull.
 Proof. exact not_null_fixed. Qed.
-Print Assumptions not_null_holds_fixed.
+Print Assumptions not_null_holds.
 
-(* NOT NULL, code as it is: REFUTED — UPDATE t SET v = NULL stores NULL into the NOT NULL column ... *)
-Theorem not_null_holds_refuted :
-  exists (g : cfg) (evs : list event) (k : Z) (r : row),
-    k_notnull g = true /\ In (k, r) (live_rows (s_c (run g cur_code evs))) /\ r_v r = VNull.
-Proof. exact not_null_refuted. Qed.
-Print Assumptions not_null_holds_refuted.
-
-(* ... and so does INSERT ... ON CONFLICT DO UPDATE SET v = NULL. *)
-Theorem not_null_holds_refuted_on_conflict :
-  exists (g : cfg) (evs : list event) (k : Z) (r : row),
-    k_notnull g = true /\ In (k, r) (live_rows (s_c (run g cur_code evs))) /\ r_v r = VNull.
-Proof. exact not_null_conflict_refuted. Qed.
-Print Assumptions not_null_holds_refuted_on_conflict.
-
-(* NOT NULL, any code: it holds after every history none of whose statements assigns NULL to v through
-   UPDATE or ON CONFLICT DO UPDATE (ev_safe ... true false); with the repair every history is such. *)
-Theorem not_null_holds_partial :
-  forall (g : cfg) (fx : fixes) (evs : list event) (k : Z) (r : row),
-    forallb (ev_safe g fx true false) evs = true -> k_notnull g = true ->
-    In (k, r) (live_rows (s_c (run g fx evs))) -> r_v r <> VNull.
-Proof. exact not_null_safe. Qed.
-Print Assumptions not_null_holds_partial.
-
-(* CHECK (v >= 0), repaired code: true of every live row after every history. *)
-Theorem check_holds_fixed :
+(* CHECK (v >= 0): true of every live row after every history. *)
+Theorem check_holds :
   forall (g : cfg) (evs : list event) (k : Z) (r : row),
     In (k, r) (live_rows (s_c (run g fixed_code evs))) -> check_ok g (r_v r) = true.
 Proof. exact check_fixed. Qed.
-Print Assumptions check_holds_fixed.
+Print Assumptions check_holds.
 
-(* CHECK, code as it is: REFUTED — INSERT ... ON CONFLICT DO UPDATE SET v = -5 commits the row. *)
-Theorem check_holds_refuted :
-  exists (g : cfg) (evs : list event) (k : Z) (r : row),
-    In (k, r) (live_rows (s_c (run g cur_code evs))) /\ check_ok g (r_v r) = false.
-Proof. exact check_refuted. Qed.
-Print Assumptions check_holds_refuted.
-
-(* CHECK, any code: holds after every history whose ON CONFLICT DO UPDATE SET v = x statements assign
-   only values satisfying the CHECK (ev_safe ... false true). *)
-Theorem check_holds_partial :
-  forall (g : cfg) (fx : fixes) (evs : list event) (k : Z) (r : row),
-    forallb (ev_safe g fx false true) evs = true ->
-    In (k, r) (live_rows (s_c (run g fx evs))) -> check_ok g (r_v r) = true.
-Proof. exact check_safe. Qed.
-Print Assumptions check_holds_partial.
+(* Type and length: after every history, every live row holds NULL or an int64 in v, and NULL or a
+   string of at most the declared length in s. *)
+Theorem type_and_length_hold :
+  forall (g : cfg) (evs : list event) (k : Z) (r : row),
+    In (k, r) (live_rows (s_c (run g fixed_code evs))) ->
+    (r_v r = VNull \/ exists z, r_v r = VInt z /\ in_i64 z = true) /\
+    (r_s r = VNull \/ exists s, r_s r = VStr s /\ len s <= k_maxlen g).
+Proof. exact type_and_length_code. Qed.
+Print Assumptions type_and_length_hold.
 
 (* Auto-increment: from every reachable state, an autocommit batch of INSERTs (keys auto-generated or
    explicit, with or without ON CONFLICT DO NOTHING) that succeeds leaves every existing live row in
    place; with pk_unique, the generated keys differ from every existing key and from each other. *)
 Theorem auto_increment_never_collides :
-  forall (g : cfg) (fx : fixes) (evs : list event) (ss : list stmt) (c' : cstate),
-    forallb plain_insert ss = true -> run_auto g fx (s_c (run g fx evs)) ss = Ok c' ->
-    forall (k : Z) (r : row), In (k, r) (live_rows (s_c (run g fx evs))) -> In (k, r) (live_rows c').
-Proof. exact insert_preserves. Qed.
+  forall (g : cfg) (evs : list event) (ss : list stmt) (c' : cstate),
+    forallb plain_insert ss = true -> run_auto g fixed_code (s_c (run g fixed_code evs)) ss = Ok c' ->
+    forall (k : Z) (r : row), In (k, r) (live_rows (s_c (run g fixed_code evs))) -> In (k, r) (live_rows c').
+Proof. exact insert_preserves_code. Qed.
 Print Assumptions auto_increment_never_collides.
 
 (* A failing event (constraint violation, read conflict, ...) leaves the committed state untouched,
    closes the transaction of the issuing session (none of that transaction's effects can ever become
    visible), and does not touch the other sessions' transactions. *)
 Theorem failed_statement_has_no_effect :
-  forall (g : cfg) (fx : fixes) (st : state) (ev : event),
-    snd (step g fx st ev) = false ->
-    s_c (fst (step g fx st ev)) = s_c st /\
-    slookup (fst ev) (s_tx (fst (step g fx st ev))) = None /\
-    forall sid', sid' <> fst ev -> slookup sid' (s_tx (fst (step g fx st ev))) = slookup sid' (s_tx st).
-Proof. exact failed_event. Qed.
+  forall (g : cfg) (st : state) (ev : event),
+    snd (step g fixed_code st ev) = false ->
+    s_c (fst (step g fixed_code st ev)) = s_c st /\
+    slookup (fst ev) (s_tx (fst (step g fixed_code st ev))) = None /\
+    forall sid', sid' <> fst ev ->
+      slookup sid' (s_tx (fst (step g fixed_code st ev))) = slookup sid' (s_tx st).
+Proof. exact failed_event_code. Qed.
 Print Assumptions failed_statement_has_no_effect.
-
-(* UNIQUE index, repaired uniqueness check: after every history and interleaving, no two live rows
-   hold the same value in v (NULL included, as the index treats it). *)
-Theorem unique_index_no_duplicates_fixed :
-  forall (g : cfg) (evs : list event), unique_ok (s_c (run g fixed_code evs)).
-Proof. exact unique_fixed_code. Qed.
-Print Assumptions unique_index_no_duplicates_fixed.
-
-(* UNIQUE index, code as it is: REFUTED — INSERT (1,10); UPDATE v=20 WHERE id=1; INSERT (2,10);
-   INSERT (3,10) leaves rows 2 and 3 with v = 10: only the first key under the value prefix is read. *)
-Theorem unique_index_no_duplicates_refuted :
-  exists (g : cfg) (evs : list event), ~ unique_ok (s_c (run g cur_code evs)).
-Proof. exact unique_refuted. Qed.
-Print Assumptions unique_index_no_duplicates_refuted.
-
-(* ... the same duplicate through two concurrent sessions: neither commit sees a read conflict ... *)
-Theorem unique_index_no_duplicates_refuted_concurrent :
-  dup_rows (s_c (run g_plain cur_code wit_unique_conc)).
-Proof. exact wit_unique_conc_dup. Qed.
-Print Assumptions unique_index_no_duplicates_refuted_concurrent.
-
-(* ... and CREATE UNIQUE INDEX is accepted on a table holding duplicates when the row with the lowest
-   primary key was deleted (same first-key lookup in the emptiness test). *)
-Theorem unique_index_create_refuted :
-  dup_rows (s_c (run g_plain cur_code wit_create)).
-Proof. exact wit_create_dup. Qed.
-Print Assumptions unique_index_create_refuted.
-
-(* UNIQUE index, code as it is: holds after every history on which the first-key lookup is never
-   fooled, i.e. on which the code as it is reaches the same committed state as the repaired check. *)
-Theorem unique_index_no_duplicates_partial :
-  forall (g : cfg) (evs : list event),
-    s_c (run g cur_code evs) = s_c (run g fix_unique_only evs) -> unique_ok (s_c (run g cur_code evs)).
-Proof. exact unique_partial. Qed.
-Print Assumptions unique_index_no_duplicates_partial.
